@@ -336,6 +336,9 @@ func genC13Trees(r *rand.Rand, n int) []Case {
 		k := 2 + r.Intn(3)
 		for j := 0; j < k; j++ {
 			id := fmt.Sprintf("92%04d", 100+10*j+r.Intn(9))
+			if j == 1 && i%2 == 1 {
+				id = pick(r, []string{"012345", "000007", "000000"})
+			}
 			nt := 1 + r.Intn(4)
 			var lines []string
 			lines = append(lines, "---", "tests:")
@@ -392,6 +395,10 @@ func genC13(r *rand.Rand, tier string, env *Env) []Case {
 	}
 	for i := 0; i < n; i++ {
 		ruleId := fmt.Sprintf("9%05d", r.Intn(100000))
+		if i%7 == 3 {
+			// ids are six digits, whatever digits: leading zeros, all zeros, all nines
+			ruleId = pick(r, []string{"012345", "000007", "000000", "001000", "099999", "999999"})
+		}
 		content, nontrivial := genYamlTestFile(r, ruleId)
 		kind := "yaml"
 		if !nontrivial {
